@@ -4,7 +4,7 @@
    function alone (every intermediate real value inside the domain of the operation applied to it).
    fused multiply-add and iterator sums / products are, by the theorems of C08, equal to the operator compositions they abbreviate, so a program
    using them is a program of this syntax.  Only `exact` proofs here. *)
-From ND Require Import Tactics C02_proofs C01_towers C01_faa C07_proofs C09_proofs Prog Agree C04_inst C04_nested C03_proofs C03_second C03_third C03_mixed.
+From ND Require Import Tactics C02_proofs C01_towers C01_faa C07_proofs C09_proofs Prog Agree C04_inst C04_nested C03_proofs C03_second C03_third C03_mixed C03_mixed3.
 Local Open Scope R_scope.
 
 (* the first-order type: the eps part is the derivative (Coquelicot is_derive) of the real function the program computes, along the input curves *)
@@ -104,13 +104,42 @@ Theorem C03_directional_DDD : forall k, (k = 1 \/ k = 2 \/ k = 3)%nat -> forall 
   RepX (part:=part_DDD) (wf:=fun _ => True) k t0 (fun t => eval (T:=R) (at_t envV t) p) (eval envX p).
 Proof. exact directional_DDD. Qed.
 
+(* mixed third order.  A hyper-hyper-dual number is a dual number over hyper-dual numbers, h = lo h + hi h eps3 (lo h = (re, eps1, eps2, eps1eps2),
+   hi h = (eps3, eps1eps3, eps2eps3, eps1eps2eps3)), and the translated arithmetic is exactly that (C03_hhd_is_dual_over_hyperdual).
+   RepT s0 t0 u0 v h := lo h represents v(.,.,u0) in the sense of RepH, and there is g3(s,t) = the u-derivative of v(s,t,.) at u0 for (s,t) near
+   (s0,t0) which hi h represents: spelled out on the eight parts by C03_RepT_meaning.  For every program, the evaluation over HyperHyperDual carries,
+   in eps1eps2eps3, d/ds d/dt d/du of the real function the program computes along three-parameter families of inputs *)
+Theorem C03_hhd_is_dual_over_hyperdual : forall x y : HyperHyperDual R,
+  (heq (lo (eval_bin B_add x y)) (eval_bin B_add (lo x) (lo y)) /\ heq (hi (eval_bin B_add x y)) (eval_bin B_add (hi x) (hi y))) /\
+  (heq (lo (eval_bin B_mul x y)) (eval_bin B_mul (lo x) (lo y)) /\
+   heq (hi (eval_bin B_mul x y)) (eval_bin B_add (eval_bin B_mul (hi x) (lo y)) (eval_bin B_mul (lo x) (hi y)))) /\
+  (HyperHyperDual_f_re y <> 0 -> heq (lo (eval_bin B_div x y)) (eval_bin B_div (lo x) (lo y)) /\
+   heq (hi (eval_bin B_div x y)) (eval_bin B_div (eval_bin B_sub (eval_bin B_mul (hi x) (lo y)) (eval_bin B_mul (lo x) (hi y))) (eval_bin B_mul (lo y) (lo y)))).
+Proof. exact (fun x y => conj (lohi_add x y) (conj (lohi_mul x y) (lohi_div x y))). Qed.
+Theorem C03_RepT_meaning : forall s0 t0 u0 v (h : HyperHyperDual R), RepT s0 t0 u0 v h ->
+  HyperHyperDual_f_re h = v s0 t0 u0 /\
+  (exists vt : R -> R, locally s0 (fun s => is_derive (fun t => v s t u0) t0 (vt s)) /\ is_derive (fun s => v s t0 u0) s0 (HyperHyperDual_f_eps1 h) /\
+     HyperHyperDual_f_eps2 h = vt s0 /\ is_derive vt s0 (HyperHyperDual_f_eps1eps2 h)) /\
+  exists g3 : R -> R -> R, locally s0 (fun s => locally t0 (fun t => is_derive (v s t) u0 (g3 s t))) /\ HyperHyperDual_f_eps3 h = g3 s0 t0 /\
+    exists gt : R -> R, locally s0 (fun s => is_derive (g3 s) t0 (gt s)) /\ is_derive (fun s => g3 s t0) s0 (HyperHyperDual_f_eps1eps3 h) /\
+      HyperHyperDual_f_eps2eps3 h = gt s0 /\ is_derive gt s0 (HyperHyperDual_f_eps1eps2eps3 h).
+Proof. exact repT_parts. Qed.
+Theorem C03_mixed_third_order : forall (s0 t0 u0 : R) (p : prog) (envV : list (R -> R -> R -> R)) (envD : list (HyperHyperDual R)),
+  Forall2 (RepT s0 t0 u0) envV envD -> okR (at_stu envV s0 t0 u0) p ->
+  RepT s0 t0 u0 (fun s t u => eval (T:=R) (at_stu envV s t u) p) (eval envD p).
+Proof. exact mixed_third_order. Qed.
+Theorem C03_third_partial_program : forall p x y z, okR (x :: y :: z :: nil) p ->
+  RepT x y z (fun s t u => eval (T:=R) (s :: t :: u :: nil) p)
+       (eval (mkHyperHyperDual x 1 0 0 0 0 0 0 :: mkHyperHyperDual y 0 1 0 0 0 0 0 :: mkHyperHyperDual z 0 0 1 0 0 0 0 :: nil) p).
+Proof. exact third_partial_program. Qed.
+
 (* non-vacuity: exp(x) / (x*y + 3) at (1, 2) satisfies the domain condition, with seeds along the first variable *)
 Example C03_example :
   let p := PBin B_div (PUn U_exp (PVar 0)) (PScal B_add (PBin B_mul (PVar 0) (PVar 1)) 3) in
   okR (at_t ((fun t => t) :: (fun _ => 2) :: nil) 1) p /\ Forall2 (Rep1 1) ((fun t => t) :: (fun _ => 2) :: nil) (mkDual 1 1 :: mkDual 2 0 :: nil).
 Proof. exact example_ok. Qed.
 
-Definition C03_bundle := (C03_first_order, C03_first_derivative_program, C03_second_order, C03_second_derivative_program, C03_third_order, C03_third_derivative_program, C03_mixed_second_order, C03_second_partial_program, C03_directional_Dual, C03_directional_Dual2, C03_directional_Dual3,
+Definition C03_bundle := (C03_first_order, C03_first_derivative_program, C03_second_order, C03_second_derivative_program, C03_third_order, C03_third_derivative_program, C03_mixed_second_order, C03_second_partial_program, C03_hhd_is_dual_over_hyperdual, C03_RepT_meaning, C03_mixed_third_order, C03_third_partial_program, C03_directional_Dual, C03_directional_Dual2, C03_directional_Dual3,
   C03_directional_HyperDual, C03_directional_HyperHyperDual, C03_directional_DualVec, C03_directional_Dual2Vec, C03_directional_HyperDualVec,
   C03_directional_DD, C03_directional_DDD).
 Print Assumptions C03_bundle.
